@@ -87,8 +87,11 @@ def genericTys (hasU hasN hasLt : Bool) : List Ty :=
    .path false [.mk "std" [], .mk "vec" [], .mk "Vec" [.ty tyT]],
    Ty.app "Wrap" [Ty.app "Wrap" [tyT]], Ty.app "Box" [.dynT false [.mk "Tr2" [.ty tyT]]],
    .dynT false [.mk "Tr2" [.ty tyT]] [["Send"]], Ty.app "Box" [.dynT false [.mk "Tr2" [.ty tyT]] [["Send"], ["'static"]]],
-   .path false [.mk "Other" [.assoc "Assoc" tyT]] ] ++
-  (if hasU then [tyU, .tuple [tyT, tyU], .bareFn [tyT] (some tyU), Ty.app "Pair" [tyT, tyU], Ty.app "Option" [tyU]] else []) ++
+   .path false [.mk "Other" [.assoc "Assoc" tyT]],
+   -- parenthesized path arguments
+   Ty.app "Box" [.dynT false [.fn "Fn" [tyT] none]], Ty.app "Box" [.dynT false [.fn "FnMut" [Ty.simple "u8"] (some tyT)] [["Send"]]],
+   Ty.app "PhantomData" [.dynT true [.mk "core" [], .mk "ops" [], .fn "Fn" [.ref none false tyT, Ty.simple "u8"] (some (Ty.app "Option" [tyT]))]] ] ++
+  (if hasU then [Ty.app "Box" [.dynT false [.fn "Fn" [tyT] (some tyU)]], tyU, .tuple [tyT, tyU], .bareFn [tyT] (some tyU), Ty.app "Pair" [tyT, tyU], Ty.app "Option" [tyU]] else []) ++
   (if hasN then [.array tyT (.ident "N"), .array (Ty.simple "u8") (.ident "N"), Ty.app "Arr" [Ty.simple "N"],
                  .path false [.mk "Arr" [.lit "3"]]] else []) ++
   (if hasLt then [.ref (some "'a") false tyT, .ref (some "'a") true (Ty.simple "u8"), .ref (some "'a") false (Ty.simple "str"),
@@ -101,7 +104,8 @@ def trickyTys : List Ty :=
    -- possibly unsized (matters for a last field)
    .slice (Ty.simple "u8"), Ty.simple "str", .dynT false [.mk "Tr2" [.ty (Ty.simple "u8")]], .path false [.mk "m" [], .mk "str" []],
    .dynT false [.mk "Tr2" [.ty (Ty.simple "u8")]] [["Send"], ["Sync"]], .dynT true [.mk "core" [], .mk "fmt" [], .mk "Debug" []] [["'static"]],
-   .path true [.mk "str" []]]
+   .path true [.mk "str" []],
+   .dynT false [.fn "Fn" [Ty.simple "u8"] (some (Ty.simple "u8"))], Ty.app "Box" [.dynT false [.fn "Fn" [.path true [.mk "T" []]] none]]]
 
 def foreignAttrPool : List Toks :=
   [["doc", "=", "\" text\""], ["repr", "(", "C", ")"], ["allow", "(", "dead_code", ")"],
@@ -558,7 +562,8 @@ def genImplCase (fam : String) (seed idx : Nat) : Case := runGen seed idx do
     else if weird == 2 then some (false, [.mk traitName [.ty (Ty.simple "u8"), .ty (Ty.simple "u8")]])
     else some (tglobal && pathStyle != 0, segs)
   let neg := weird == 3
-  let output ← pickW [(5, some Ty.selfTy), (2, some x), (1, some (Ty.app "Vec" [Ty.selfTy])), (1, some (Ty.simple "u8")), (1, none)]
+  let output ← pickW [(5, some Ty.selfTy), (2, some x), (1, some (Ty.app "Vec" [Ty.selfTy])), (1, some (Ty.simple "u8")), (1, none),
+                      (1, some (Ty.app "Box" [.dynT false [.fn "Fn" [Ty.selfTy] (some Ty.selfTy)]]))]
   let fnToks : Toks := ["fn", "f", "(", "self", ")", "{", "}"]
   let members : List ImplMember :=
     (if baseAssign then [] else (match output with | some t => [.output t] | none => [])) ++ [.other fnToks]
@@ -665,6 +670,7 @@ def Ty.mapIdentL (f : String → String) : List Ty → List Ty
   | t :: ts => Ty.mapIdent f t :: Ty.mapIdentL f ts
 def Seg.mapIdent (f : String → String) : Seg → Seg
   | .mk i args => .mk (f i) (GArg.mapIdentL f args)
+  | .fn i args ret => .fn (f i) (Ty.mapIdentL f args) (Ty.mapIdentO f ret)
 def Seg.mapIdentL (f : String → String) : List Seg → List Seg
   | [] => []
   | s :: ss => Seg.mapIdent f s :: Seg.mapIdentL f ss
